@@ -75,11 +75,54 @@ func mkT3() func() *c01T3 {
 }
 
 // slices, maps, arrays
+type c01key struct {
+	N string
+	P *int
+}
+
 type c01T4 struct {
 	S  []int16
 	M  map[string]int8
 	A  [2]uint8
 	SS []string
+}
+
+// reference-bearing arrays inside slices, struct map keys holding pointers, pointer to a struct
+// whose fields are all nil-able (its pointerified type is identical to the original)
+type c01T8 struct {
+	AP [][1]*c01sub
+	MK map[c01key]int8
+	PN *struct {
+		Tags  []int16
+		Level *int
+	}
+}
+
+func mkT8() func() *c01T8 {
+	apMode := zzverif.Choose("dAP", 2)
+	mkMode := zzverif.Choose("dMK", 2)
+	pnMode := zzverif.Choose("dPN", 2)
+	v := zzverif.Int16("dAPV")
+	kp := zzverif.Int("dKP")
+	lv := zzverif.Int("dLevel")
+	return func() *c01T8 {
+		c := c01T8{}
+		if apMode == 1 {
+			c.AP = [][1]*c01sub{{&c01sub{V: v, W: "w"}}}
+		}
+		if mkMode == 1 {
+			x := kp
+			c.MK = map[c01key]int8{{N: "k", P: &x}: 1}
+		}
+		if pnMode == 1 {
+			l := lv
+			c.PN = &struct {
+				Tags  []int16
+				Level *int
+			}{Tags: []int16{7}, Level: &l}
+		}
+		return &c
+	}
 }
 
 func mkT4() func() *c01T4 {
@@ -105,20 +148,24 @@ func mkT4() func() *c01T4 {
 
 // user-declared pointers to non-structs
 type c01T5 struct {
-	PI *int
-	PS *string
-	K  int8
+	PI  *int
+	PS  *string
+	K   int8
+	PI2 *int
 }
 
 func mkT5() func() *c01T5 {
-	mode := zzverif.Choose("dPI", 2)
+	mode := zzverif.Choose("dPI", 3) // nil; own variable; PI and PI2 alias one variable
 	pi := zzverif.Int("dPIv")
 	k := zzverif.Int8("dK")
 	return func() *c01T5 {
 		c := c01T5{K: k}
-		if mode == 1 {
+		if mode >= 1 {
 			x := pi
 			c.PI = &x
+			if mode == 2 {
+				c.PI2 = &x
+			}
 		}
 		return &c
 	}
@@ -183,6 +230,8 @@ func HarnessC01T4() { c01run("T4 slices/maps/arrays", mkT4(), 2) }
 func HarnessC01T5() { c01run("T5 user pointers", mkT5(), 2) }
 func HarnessC01T6() { c01run("T6 text-unmarshalable", mkT6(), 2) }
 func HarnessC01T7() { c01run("T7 deep nesting", mkT7(), 2) }
+func HarnessC01T8() { c01run("T8 arrays in slices / struct keys / all-nilable pointee", mkT8(), 1) }
+func HarnessC01T8L2() { c01run("T8 arrays in slices / struct keys / all-nilable pointee", mkT8(), 2) }
 
 // three layers on the types with few leaves
 func HarnessC01T2L3() { c01run("T2 skipped fields", mkT2(), 3) }
